@@ -97,8 +97,9 @@ pub fn worker_main(args: &[String]) -> i32 {
         if let Some(h) = rep.nontrivial {
             nontrivial.insert(h);
             if samples.len() < 2 {
-                if let Some(c) = &rep.case {
-                    samples.push(json!({"run": i, "seed": seed, "case": c}));
+                match &rep.case {
+                    Some(c) => samples.push(json!({"run": i, "seed": seed, "case": c})),
+                    None => samples.push(json!({"run": i, "seed": seed, "engine": eng.name(), "profile": profile, "trace_hash": rep.trace_hash, "counters": rep.counters})),
                 }
             }
         }
